@@ -42,7 +42,7 @@ def evaluate(spec):
     dims = sum(1 for k in ("shuffle", "crlf") if v.get(k)) + sum(1 for k in ("comments", "blanks", "unrelated", "dup") if v.get(k, 0) > 0) + \
         (1 if v.get("upper", "none") != "none" else 0)
     uses_dsb = bool(v.get("dsb"))
-    labels = ["delivery:" + ("dsb-only" if uses_dsb and not v.get("file", True) else "file+dsb" if uses_dsb else "file"),
+    labels = ["dsbpos:" + v.get("dsb_pos", "first") if v.get("dsb") else "dsbpos:-", "delivery:" + ("dsb-only" if uses_dsb and not v.get("file", True) else "file+dsb" if uses_dsb else "file"),
               "dsbs:%d" % len(v.get("dsb") or []), "upper:" + v.get("upper", "none"), "sub" if sub else "inproc",
               "kinds:" + "+".join(sorted({c["kind"] for c in spec["conns"]}))]
     for k in ("shuffle", "crlf", "comments", "blanks", "unrelated", "dup"):
@@ -50,7 +50,7 @@ def evaluate(spec):
             labels.append("decor:" + k)
     nontrivial = bool(o0.pkts) and (dims >= 2 or uses_dsb)
     if f1:
-        return {"sig": f"variant ({labels[0]}): " + f1, "detail": (o1.run.exc or o1.run.stderr or "")[-300:], "nontrivial": nontrivial, "labels": labels,
+        return {"sig": f"variant ({labels[1]}): " + f1, "detail": (o1.run.exc or o1.run.stderr or "")[-300:], "nontrivial": nontrivial, "labels": labels,
                 "evals": 2}
     sig, detail = None, ""
     if _digest(o1) != d0:
@@ -92,7 +92,7 @@ def variant(draw, nlines, tls_only, allow_sub=True):
         mask = draw(st.lists(st.booleans(), min_size=nlines, max_size=nlines))
         v["file"], v["file_lines"] = True, [i for i in idx if mask[i]]
         v["dsb"] = [[i for i in idx if not mask[i]]]
-    v["dsb_pos"] = draw(st.sampled_from(["first", "spread"])) if tls_only else "first"
+    v["dsb_pos"] = draw(st.sampled_from(["first", "spread", "before_idb"])) if tls_only else draw(st.sampled_from(["first", "first", "before_idb"]))
     return v
 
 
@@ -132,7 +132,7 @@ def stages(tier):
 
 RULE = ("a TLS and/or QUIC scenario is run with its canonical key log file and with a generated delivery variant: line permutation, LF/CRLF, "
         "comment / blank / unrelated / duplicate lines, upper/lower/mixed-case hex in client random and secret, file only / DSB only (no -s) / "
-        "file + DSB / log split over 2-4 DSBs (blocks may be empty) / lines partitioned between file and DSB, DSBs first or (TLS-only captures) "
+        "file + DSB / log split over 2-4 DSBs (blocks may be empty) / lines partitioned between file and DSB, DSBs before the interface description block, first after it, or (TLS-only captures) "
         "anywhere; stage dsb-only-subprocess runs `python -m tlexport.main` without -s from three different working directories; oracle: output "
         "file bytes identical to the canonical run.  Non-trivial: canonical run exports packets and the variant differs in >= 2 decoration "
         "dimensions or uses a DSB")
